@@ -183,10 +183,10 @@ pub fn k_vbe_decode_mode_any_model() {
     kani::assume(le32(b, 4) == 784);
     let tag = vbe_from(b);
     let m = tag.mode_info();
+    kani::cover!(b[MI + 27] == 0x10);
     check_mode_fields(&m, b);
     assert!(m.memory_model as u8 == b[MI + 27]);
     assert!(model_number(m.memory_model) == b[MI + 27]);
-    kani::cover!(b[MI + 27] == 0x10);
 }
 
 // ---- C07: constructor.  Arguments: four symbolic u16 and two blocks whose every
@@ -318,8 +318,9 @@ fn check_mode_image(by: &[u8], m: &VBEModeInfo) {
     assert!(by[MI + 50 + i] == m.reserved1[i]);
 }
 
+// top-level part: header, the four u16, read back of all six arguments
 #[kani::proof]
-pub fn k_vbe_new_image() {
+pub fn k_vbe_new_top() {
     let (mode, seg, off, len): (u16, u16, u16, u16) = kani::any();
     let c = any_control();
     let m = any_mode();
@@ -336,35 +337,59 @@ pub fn k_vbe_new_image() {
     assert!(by[10..12] == seg.to_le_bytes());
     assert!(by[12..14] == off.to_le_bytes());
     assert!(by[14..16] == len.to_le_bytes());
-    check_control_image(&by, &c);
-    check_mode_image(&by, &m);
     // read back
     assert!(tag.mode() == mode);
     assert!(tag.interface_segment() == seg);
     assert!(tag.interface_offset() == off);
     assert!(tag.interface_length() == len);
-    assert!(tag.control_info() == c);
-    assert!(tag.mode_info() == m);
 }
 
-// ---- C07: byte view of a tag stored as element 1 of an array
+// control info block of the image + read back
+#[kani::proof]
+pub fn k_vbe_new_control() {
+    let (mode, seg, off, len): (u16, u16, u16, u16) = kani::any();
+    let c = any_control();
+    let m = any_mode();
+    let tag = VBEInfoTag::new(mode, seg, off, len, c, m);
+    let by = tag.as_bytes();
+    check_control_image(&by, &c);
+    let rc = tag.control_info();
+    check_control_image(&by, &rc);
+}
+
+// mode info block of the image + read back
+#[kani::proof]
+pub fn k_vbe_new_mode() {
+    let (mode, seg, off, len): (u16, u16, u16, u16) = kani::any();
+    let c = any_control();
+    let m = any_mode();
+    let tag = VBEInfoTag::new(mode, seg, off, len, c, m);
+    let by = tag.as_bytes();
+    check_mode_image(&by, &m);
+    let rm = tag.mode_info();
+    check_mode_image(&by, &rm);
+}
+
+// ---- C07: byte view of a tag stored as element 1 of an array: obtainable, and
+// byte for byte (symbolic index over all 784 positions) the same image as the
+// one of a tag built from the same arguments in a plain local (whose image is
+// checked against the spec by the three harnesses above)
 #[kani::proof]
 pub fn k_vbe_new_in_array() {
     let (mode, seg, off, len): (u16, u16, u16, u16) = kani::any();
     let c = any_control();
     let m = any_mode();
+    let local = VBEInfoTag::new(mode, seg, off, len, c, m);
     let arr = [
         VBEInfoTag::new(0, 0, 0, 0, VBEControlInfo::default(), VBEModeInfo::default()),
         VBEInfoTag::new(mode, seg, off, len, c, m),
     ];
     let by = arr[1].as_bytes();
-    assert!(by.len() == 784);
+    let bl = local.as_bytes();
+    assert!(by.len() == 784 && bl.len() == 784);
     assert!(by[0..4] == 7u32.to_le_bytes());
     assert!(by[4..8] == 784u32.to_le_bytes());
-    assert!(by[8..10] == mode.to_le_bytes());
-    assert!(by[10..12] == seg.to_le_bytes());
-    assert!(by[12..14] == off.to_le_bytes());
-    assert!(by[14..16] == len.to_le_bytes());
-    check_control_image(&by, &c);
-    check_mode_image(&by, &m);
+    let k: usize = kani::any();
+    kani::assume(k < 784);
+    assert!(by[k] == bl[k]);
 }
